@@ -83,6 +83,7 @@ theorem step_bits {H : List Nat → η} {s : Frag η} (hw : WF H s) (op : Op) (h
   | setValue c depth v => exact setValueBase_bits_eq s c depth v false hs
   | clearValue c depth v => exact setValueBase_bits_eq s c depth v true hs
   | snapshot => rfl
+  | reopen => rfl
   | invalidateChecksums => rfl
   | row r => exact row_bits s r
   | blocks => rfl
@@ -237,6 +238,7 @@ theorem step_out {H : List Nat → η} {s : Frag η} (hw : WF H s) (op : Op) (ho
     congr 2
     rw [Bool.eq_iff_iff, hiff, bne_spec_setValue hs]
   | snapshot => rfl
+  | reopen => rfl
   | invalidateChecksums => rfl
   | row r => simp only [step, Spec.out, row_out hw.inv r]
   | blocks => simp only [step, Spec.out, (blocks_spec hw.inv).1]
